@@ -1147,11 +1147,17 @@ impl<'a> Session<'a> {
     /// after start).  The model follows that documented refusal, and nothing else.
     fn sync_armed_after_start(&mut self) {
         let listed: BTreeSet<u64> = self.dbg.as_ref().unwrap().breakpoints_snapshot().iter().map(|b| self.abs(b.addr)).collect();
+        let maps = ns::maps(self.pid);
         for a in self.armed.keys().copied().collect::<Vec<_>>() {
             if !listed.contains(&a) {
                 if self.tr.in_text(a) && !self.lt.has_rows(a - self.tr.base) {
                     self.armed.remove(&a);
                     bump(&mut self.stats, "c01.prestart_breakpoint_without_place_dropped");
+                } else if !maps.is_empty() && !maps.iter().any(|m| m.start <= a && a < m.end) {
+                    // a line-table row of dead-stripped code (address 0.. of a non-PIE
+                    // executable): nothing is mapped there, no breakpoint can exist
+                    self.armed.remove(&a);
+                    bump(&mut self.stats, "c01.prestart_breakpoint_at_unmapped_address_dropped");
                 } else {
                     self.violate("C01", "breakpoint_lost_at_start", format!("breakpoint {} requested before start is not listed after start", self.off(a)));
                     self.armed.remove(&a);
@@ -1164,6 +1170,15 @@ impl<'a> Session<'a> {
     fn check_continue(&mut self, op: &Op, before: Where, outcome: &Outcome, evs: &[Ev], obs: Option<(u64, u64, u64)>) {
         if matches!(op, Op::Start) && matches!(before, Where::NotStarted) && !matches!(outcome, Outcome::Err(_)) && self.pos != Where::Exited {
             self.sync_armed_after_start();
+        } else if matches!(op, Op::Start) && matches!(before, Where::NotStarted) && !matches!(outcome, Outcome::Err(_)) {
+            // the program ran to its end: the listing can no longer be consulted, the rule can
+            // (an address requested before start that has no line-table place is dropped at start)
+            for a in self.armed.keys().copied().collect::<Vec<_>>() {
+                if self.tr.in_text(a) && !self.lt.has_rows(a - self.tr.base) {
+                    self.armed.remove(&a);
+                    bump(&mut self.stats, "c01.prestart_breakpoint_without_place_dropped");
+                }
+            }
         }
         if let (Some(sig), Where::At(i)) = (self.pending_sig, before) {
             // the pending signal is delivered before the program executes anything
@@ -1957,6 +1972,11 @@ impl<'a> Session<'a> {
         let stack = tr.stack_at(j);
         let mut expected: Vec<u64> = vec![rip];
         for a in &stack {
+            // an activation entered by a tail jump took over its caller's frame: the two share one
+            // return slot, and the physical stack has one frame for them
+            if tr.acts[*a as usize].tail {
+                continue;
+            }
             expected.push(tr.acts[*a as usize].ret);
         }
         // intermediate frames must all be ours with unwind info (generated code)
